@@ -275,3 +275,31 @@ fn kb_finalize_tiling() {
     if n == 2 { assert!(out[mdat_at + 18 + 3] == K_VP9_DELTA[3]); }
     core::mem::forget(w);
 }
+
+/// a sink that follows a script: per write call it reports Interrupted, accepts one byte, or accepts everything
+struct ScriptSink { got: Vec<u8>, script: [u8; 5], pos: usize }
+impl std::io::Write for ScriptSink {
+    fn write(&mut self, buf: &[u8]) -> std::io::Result<usize> {
+        let a = if self.pos < 5 { self.script[self.pos] % 3 } else { 2 };
+        self.pos += 1;
+        if a == 0 { return Err(std::io::Error::from(std::io::ErrorKind::Interrupted)); }
+        if a == 1 && !buf.is_empty() { self.got.push(buf[0]); return Ok(1); }
+        self.got.extend_from_slice(buf);
+        Ok(buf.len())
+    }
+    fn flush(&mut self) -> std::io::Result<()> { Ok(()) }
+}
+/// BOUNDED (a 3-byte buffer, every schedule of up to 5 Interrupted / one-byte / full results): the one function through which muxide
+/// writes delivers the whole buffer, reports success and counts exactly the buffer length - short and interrupted writes are invisible.
+#[kani::proof]
+#[kani::unwind(8)]
+fn kb_write_counted_retries() {
+    let script: [u8; 5] = kani::any();
+    let mut s = ScriptSink { got: Vec::new(), script, pos: 0 };
+    let mut n: u64 = 0;
+    let r = Mp4Writer::<ScriptSink>::write_counted(&mut s, &mut n, &[1u8, 2, 3]);
+    match r { Ok(()) => {}, Err(e) => { core::mem::forget(e); assert!(false); } }
+    assert!(s.got.len() == 3 && s.got[0] == 1 && s.got[1] == 2 && s.got[2] == 3);
+    assert!(n == 3);
+    core::mem::forget(s);
+}
